@@ -4,8 +4,13 @@ From Coq Require Import String.   (* first, so that the List names win *)
 From Grog Require Import Str Store.
 From GrogX Require Import XSupport.
 
+Inductive xop :=
+| XBad                 (* the driver's "bad-op" *)
+| XNoop                (* lbreak / lfix: the harness makes a local fault happen; the driver prints the unchanged world *)
+| XOp (o : wop).
+
 Inductive case :=
-| CCase (rf : list rfault) (lf : list lfault) (ops : list (option wop))   (* None: the driver's "bad-op" *)
+| CCase (rf : list rfault) (lf : list lfault) (ops : list xop)
 | CSteps (opss : list (list op)) (sched : list nat) (faults : list bool)
 | CGuard (l r : list str).
 
@@ -38,11 +43,13 @@ Definition show_res (o : wop) (r : res) : str :=
   | RHit b => L "ok=" ++ show_val (op_path o) b
   end.
 
-Fixpoint do_ops (w : world) (ops : list (option wop)) : list str :=
+Fixpoint do_ops (w : world) (ops : list xop) : list str :=
   match ops with
   | [] => []
-  | None :: rest => L "bad-op" :: do_ops w rest
-  | Some o :: rest =>
+  | XBad :: rest => L "bad-op" :: do_ops w rest
+  | XNoop :: rest =>
+      (L "ok|A:" ++ obs (locA w) ++ L "|B:" ++ obs (locB w) ++ L "|R:" ++ obs (rem w)) :: do_ops w rest
+  | XOp o :: rest =>
       let '(r, w') := do_op w o in
       (show_res o r ++ L "|A:" ++ obs (locA w') ++ L "|B:" ++ obs (locB w') ++ L "|R:" ++ obs (rem w'))
         :: do_ops w' rest
